@@ -9,7 +9,8 @@ from hypothesis import strategies as st
 from pv.core import Sub, Violation, call, check, short
 
 ASSUMPTIONS = [
-    'trees are dict / Dict / dictattr nodes with 1-3 string keys (no "." in keys, no empty branches), leaves None / ints / strings / lists of ints, depth <= 4',
+    'trees are dict / Dict / dictattr nodes with 1-3 string keys (no "." in keys), leaves None / ints / strings / lists of ints, depth <= 4; flatten/rebuild only on trees without empty branches; '
+    'in the merge check a quarter of the t trees carry empty branches (u\'s branch then merges into the empty one; an empty branch of u contributes nothing)',
     'results are compared structurally with == on the plain-dict image (the statement does not fix which dict class new branches get)',
     'ignore lists are [None] or [None, 0]; an ignored leaf still creates keys that did not exist (documented in items_to_tree)',
     'table<->tree: wildcard names are distinct, key wildcards bind strings, the last pattern element is a wildcard bound to a scalar leaf or a constant leaf; rows have unique paths',
@@ -133,9 +134,18 @@ def _derive(draw, s, d=0):
     return [draw(_btype), out]
 
 
+def _with_empty(draw, s):
+    """replaces some leaves of t by empty branches (the merge clauses of the statement still read unambiguously: u's branch merges into the empty one)"""
+    if s[0] == 'leaf':
+        return [draw(_btype), []] if draw(st.integers(0, 5)) == 0 else s
+    return [s[0], [[k, _with_empty(draw, v)] for k, v in s[1]]]
+
+
 @st.composite
 def _merge_case(draw):
     t = draw(_t)
+    if draw(st.integers(0, 3)) == 0:
+        t = _with_empty(draw, t)
     kind = draw(st.sampled_from(['derived', 'derived', 'derived', 'independent', 'self', 'empty']))
     if kind == 'derived':
         u = _derive(draw, t)
@@ -214,6 +224,13 @@ def run_merge(spec):
     check(res is not t, '%s returned t itself', what)
     shared, lb = _conflicts(mt, mu)
     cls = ['kind=' + spec['kind'], 'via=' + via, 'ignore=%s' % (ignore,)]
+
+    def _has_empty(m):
+        return isinstance(m, dict) and (not m or any(_has_empty(v) for v in m.values()))
+    if any(_has_empty(v) for v in mt.values()):
+        cls.append('empty_branch_in_t')
+        if any(isinstance(mt.get(k), dict) and not mt[k] and isinstance(mu.get(k), dict) and mu[k] for k in mu):
+            cls.append('u_branch_merges_into_empty_branch_of_t')
     if shared:
         cls.append('shared_branch_differs')
     if lb:
